@@ -64,6 +64,7 @@ POLY = ["box", "hull", "mesh"]
 C07_KNOWN = set()      # filled in run(): recorded findings of C07 whose input classes are skipped here
 C09_KNOWN = set()
 C18_ILLCOND = [False]
+FN3 = [False]
 
 
 # ============================================================================= colliders: generation
@@ -467,6 +468,16 @@ def judge_narrow(R, scene, res, T, member_queue):
                     # the simplex solver on a thin simplex, closest points right): recorded class C18-*-ILLCOND, judged by C01/C09/C18
                     T.hit("skip_gjk_self_inconsistent_C18_illcond")
                     continue
+                if base.startswith("nesterov") and FN3[0]:
+                    # known finding F-N3 (C09): on nearly flat simplices the Nesterov projection can return a point
+                    # outside the simplex and the loop exits with a value BELOW the true distance.  Signature used
+                    # here: in one form the Nesterov value is below that form's own Jolt distance (judged by C01)
+                    # by more than the property's tolerance.  C09 is the judge of the class.
+                    jd0 = o0.get("gjk_jolt", {}).get("d")
+                    jdv = ov_all.get(pref + "gjk_jolt", {}).get("d")
+                    if any(j is not None and j < MAX_FLOAT_ISH and x < j - kk for x, j, kk in ((d0, jd0, tau0), (dv, jdv, tauv))):
+                        T.hit("skip_nesterov_below_jolt_F-N3")
+                        continue
                 T.hit(f"cmp_d:{base}")
                 if abs(dv - mp["s"] * d0) > tol:
                     fail(f"{base}: {vname}: distance {dv!r} but {mp['s']!r} * {d0!r} = {mp['s'] * d0!r} expected (tolerance {tol:.3g})",
@@ -784,6 +795,7 @@ def run(tier, seed, replay=None):
     C09_KNOWN.update(foreign_known("C09"))
     # F-J2 (C01): gjk_distance_jolt's d below |a-b| when the simplex solver returns a bogus shorter vector (C18-*-ILLCOND)
     C18_ILLCOND[0] = "F-J2" in foreign_known("C01")
+    FN3[0] = "F-N3" in foreign_known("C09")
     R.cov["rule"] = (
         "scene = ordered pair of colliders (10 kinds, optional Margin; streams of harness/narrow.gen_pair: random, lattice incl. "
         "identical objects, wide, constructed gap / penetration; plus overlapping polytopes and Nesterov primitives) or a call of one "
